@@ -229,6 +229,19 @@ def _fold(fn_z3, pyfn):
     return f
 
 
+def _ws_class(kind):
+    """the characters str.split() / bytes.split() treat as white space"""
+    def ch(c):
+        return z3.Re(z3.StringVal(chr(c)))
+    def rng(a, b):
+        return z3.Range(z3.StringVal(chr(a)), z3.StringVal(chr(b)))
+    parts = [rng(9, 13), ch(32)]
+    if kind == "str":
+        parts += [rng(0x1c, 0x1f), ch(0x85), ch(0xa0), ch(0x1680), rng(0x2000, 0x200a), ch(0x2028), ch(0x2029), ch(0x202f),
+                  ch(0x205f), ch(0x3000)]
+    return z3.Union(*parts)
+
+
 def _split(it, a, k, n):
     s = a[0]
     sep = it.need(a[1]) if len(a) > 1 else it.need(k.get("sep", NONE))
@@ -241,17 +254,30 @@ def _split(it, a, k, n):
             return VList([VStr(x) for x in cs.split()])
         ms = concrete_int(as_int(it.need(maxsplit))) if maxsplit is not None else None
         if ms == 1 and not it.spec:
-            # s.split(None, 1): [] | [word] | [word, rest].  Over-approximation (sound): only the shape of
-            # the result and "pieces are non-empty" are kept, the pieces themselves are unconstrained
+            # s.split(None, 1): [] | [word] | [word, rest] -- exact: leading white space is skipped, the word is the run
+            # of non-white-space characters, the rest starts at the next non-white-space character and keeps its tail
+            ws = _ws_class(s.kind)
+            nonws = z3.Complement(ws) if False else None
+            anych = z3.AllChar(z3.ReSort(StrS))
+            non_ws_char = z3.Diff(anych, ws) if hasattr(z3, "Diff") else z3.Intersect(anych, z3.Complement(ws))
+            lead = z3.String(it.ctx.fresh_name("split_l"))
             word = z3.String(it.ctx.fresh_name("split_w"))
-            rest = z3.String(it.ctx.fresh_name("split_r"))
-            it.ctx.assume(z3.Length(word) > 0, "split(None,1):word-nonempty")
+            it.ctx.assume(z3.InRe(lead, z3.Star(ws)), "split(None,1):leading-white-space")
             k = it.ctx.choose([T(), T(), T()], "split-shape")
             if k == 0:
+                it.ctx.assume(z3.InRe(s.z, z3.Star(ws)), "split(None,1):only-white-space")
                 return VList([])
+            it.ctx.assume(z3.InRe(word, z3.Plus(non_ws_char)), "split(None,1):word")
             if k == 1:
+                trail = z3.String(it.ctx.fresh_name("split_t"))
+                it.ctx.assume(z3.InRe(trail, z3.Star(ws)), "split(None,1):trailing-white-space")
+                it.ctx.assume(s.z == z3.Concat(lead, word, trail), "split(None,1):one-word")
                 return VList([VStr(word, s.kind)])
-            it.ctx.assume(z3.Length(rest) > 0, "split(None,1):rest-nonempty")
+            sep = z3.String(it.ctx.fresh_name("split_s"))
+            rest = z3.String(it.ctx.fresh_name("split_r"))
+            it.ctx.assume(z3.InRe(sep, z3.Plus(ws)), "split(None,1):separator")
+            it.ctx.assume(z3.InRe(rest, z3.Concat(non_ws_char, z3.Star(anych))), "split(None,1):rest-starts-with-text")
+            it.ctx.assume(s.z == z3.Concat(lead, word, sep, rest), "split(None,1):two-pieces")
             return VList([VStr(word, s.kind), VStr(rest, s.kind)])
         if maxsplit is None and not it.spec:
             # s.split(): an unknown number of unknown white-space-free words (over-approximation, sound)
